@@ -76,7 +76,7 @@ def parts(ck):
 def run(ck):
     for kind, exe, args, tag, a, deadline in parts(ck):
         if kind == "enum":
-            ck.enum(exe, args, tag, batch=a, deadline_s=deadline, timeout_ms=120000)
+            ck.enum(exe, args, tag, batch=a, deadline_s=deadline, timeout_ms=5000)
         else:
             ck.explore(exe, args, tag, budget=a, deadline_s=deadline)
     tot = lambda name: sum(p.get("counters", {}).get(name, 0) for p in ck.parts)
